@@ -21,6 +21,8 @@ import (
 	chain "github.com/comdex-official/comdex/app"
 	assettypes "github.com/comdex-official/comdex/x/asset/types"
 	"github.com/comdex-official/comdex/x/auctionsV2"
+	lendmod "github.com/comdex-official/comdex/x/lend"
+	abci "github.com/cometbft/cometbft/abci/types"
 	auctionsV2types "github.com/comdex-official/comdex/x/auctionsV2/types"
 	esmtypes "github.com/comdex-official/comdex/x/esm/types"
 	lendtypes "github.com/comdex-official/comdex/x/lend/types"
@@ -347,6 +349,7 @@ func (e *c08Env) state() []string {
 			killed = append(killed, a.Id)
 		}
 	}
+	var pending, deleted []uint64
 	if rec, found := k.GetPoolDepreciateRecords(ctx); found {
 		seen := map[uint64]bool{}
 		for _, d := range rec.IndividualPoolDepreciate {
@@ -354,6 +357,14 @@ func (e *c08Env) state() []string {
 				seen[d.PoolID] = true
 				dep = append(dep, d.PoolID)
 			}
+			if !d.IsPoolDepreciated {
+				pending = append(pending, d.PoolID) // record order: the block hook's work list
+			}
+		}
+	}
+	for id := uint64(1); id <= k.GetPoolID(ctx); id++ {
+		if _, found := k.GetPool(ctx, id); !found {
+			deleted = append(deleted, id)
 		}
 	}
 	sort.Slice(killed, func(i, j int) bool { return killed[i] < killed[j] })
@@ -418,7 +429,7 @@ func (e *c08Env) state() []string {
 			vs = append(vs, strings.Join([]string{u(lv.OriginalVaultId), u(e.userNum[lv.Owner]), lv.TargetDebt.Amount.String(), lv.FeeToBeCollected.String()}, ":"))
 		}
 	}
-	return []string{u(k.GetUserLendIDCounter(ctx)) + "," + u(k.GetUserBorrowIDCounter(ctx)) + "," + i64(ctx.BlockTime().Unix()), strings.Join(ls, "|"), strings.Join(bs, "|"), strings.Join(ss, "|"), strings.Join(ks, "|"), strings.Join(ps, "|"), joinU(killed) + "/" + joinU(dep), strings.Join(ab, "|"), strings.Join(al, "|"),
+	return []string{u(k.GetUserLendIDCounter(ctx)) + "," + u(k.GetUserBorrowIDCounter(ctx)) + "," + i64(ctx.BlockTime().Unix()), strings.Join(ls, "|"), strings.Join(bs, "|"), strings.Join(ss, "|"), strings.Join(ks, "|"), strings.Join(ps, "|"), joinU(killed) + "/" + joinU(dep) + "/" + joinU(pending) + "/" + joinU(deleted), strings.Join(ab, "|"), strings.Join(al, "|"),
 		strings.Join(rs, "|"), strings.Join(vs, "|")}
 }
 
@@ -561,6 +572,9 @@ func (e *c08Env) emit(name string, outcome string, args ...string) {
 	if name == "handover" {
 		// own trace kind: the liquidation hand-over is a call site of its own (known_findings.d/C08.json ties D19 to it)
 		e.tr.Line("lend.handover", f[1:]...)
+	} else if name == "beginBlock" {
+		// own trace kind: the block hook of x/lend (DeletePoolAndTransferInterest)
+		e.tr.Line("lend.beginblock", f[1:]...)
 	} else if name == "auctionClose" {
 		// own trace kind: the closing bid of the second-generation auction (MsgCloseDutchAuctionForBorrow)
 		e.tr.Line("lend.close", f[1:]...)
@@ -756,11 +770,34 @@ func (e *c08Env) opSetKill(app uint64, on bool) {
 // opSetDepreciated lists a pool in the depreciation record (gov proposal handler AddPoolDepreciate); the flag of the entry is
 // drawn at random: IsPoolDepreciated only looks at the pool id.
 func (e *c08Env) opSetDepreciated(pool uint64) {
-	err := e.app.LendKeeper.AddPoolDepreciate(e.ctx, lendtypes.PoolDepreciate{IndividualPoolDepreciate: []lendtypes.IndividualPoolDepreciate{{PoolID: pool, IsPoolDepreciated: e.rng.Chance(50)}}})
+	e.opSetDepreciatedFlag(pool, e.rng.Chance(50))
+}
+
+func (e *c08Env) opSetDepreciatedFlag(pool uint64, flag bool) {
+	err := e.app.LendKeeper.AddPoolDepreciate(e.ctx, lendtypes.PoolDepreciate{IndividualPoolDepreciate: []lendtypes.IndividualPoolDepreciate{{PoolID: pool, IsPoolDepreciated: flag}}})
 	if err != nil {
 		e.t.Fatal(err)
 	}
-	e.emit("setDepreciated", "ok", u(pool))
+	e.emit("setDepreciated", "ok", u(pool), c08b(flag))
+}
+
+// opBeginBlock moves to the next block height divisible by 14400 and runs the real BeginBlocker of x/lend
+// (DeletePoolAndTransferInterest inside ApplyFuncIfNoError). The outcome class is taken from a probe run of the same call on a
+// throw-away cache context (the hook itself swallows error and panic).
+func (e *c08Env) opBeginBlock() string {
+	e.height = (e.height/14400 + 1) * 14400
+	e.now += 6
+	e.ctx = e.ctx.WithBlockTime(time.Unix(e.now, 0).UTC()).WithBlockHeight(e.height)
+	res := "ok"
+	var err error
+	if p, _ := try(func() { err = e.app.LendKeeper.DeletePoolAndTransferInterest(e.probe()) }); p {
+		res = "panic"
+	} else if err != nil {
+		res = "err"
+	}
+	lendmod.BeginBlocker(e.ctx, abci.RequestBeginBlock{}, e.app.LendKeeper)
+	e.emit("beginBlock", res)
+	return res
 }
 
 func (e *c08Env) opSetPrice(asset, twa uint64) {
@@ -1869,6 +1906,30 @@ func c08CorpusSecondTransit(t *testing.T, tr *Trace, rng *Rng) {
 	e.opCalc(u1)
 }
 
+// c08CorpusPoolDeletion — the block hook of x/lend: a depreciated pool without positions is swept into the reserve and deleted; the
+// record's flag is set on a copy, so the next run of the hook finds the entry again, reads the deleted pool as a zero record and panics
+// (the hook is then without effect for EVERY entry, also those listed after it).
+func c08CorpusPoolDeletion(t *testing.T, tr *Trace, rng *Rng) {
+	e := c08Setup(t, tr, rng, 0)
+	e.cfgLines()
+	tr.Count("corpus")
+	a1, a4 := e.base[0], e.base[3]
+	u1, u2, u4 := e.users[0], e.users[1], e.users[3]
+	n := func(x int64) sdk.Int { return sdk.NewInt(x) }
+	e.opLend(u1, a4, e.denomOf[a4], n(5_000_000_001), 2, e.appOK) // lend 1 (pool 2)
+	e.opLend(u2, a1, e.denomOf[a1], n(3_000_000_000), 1, e.appOK) // lend 2 (pool 1)
+	e.opFundModule(u4, 2, a1, e.coin(a1, n(777_777_777)))
+	e.opFundModule(u4, 2, a4, e.coin(a4, n(1_000_001)))
+	e.opSetDepreciatedFlag(2, false)
+	e.opBeginBlock() // lend 1 still open: nothing happens
+	e.opCloseLend(u1, 1)
+	e.opBeginBlock() // pool 2 is swept into the reserve and deleted
+	e.opSetDepreciatedFlag(1, false)
+	e.opCloseLend(u2, 2)
+	e.opBeginBlock() // the stale entry of pool 2 makes the hook panic: pool 1 is never swept
+	e.opBeginBlock()
+}
+
 // ---------------------------------------------------------------------------------------------- test
 
 func TestC08(t *testing.T) {
@@ -1884,6 +1945,7 @@ func TestC08(t *testing.T) {
 	c08CorpusEMode(t, tr, rng)
 	c08CorpusIsolated(t, tr, rng)
 	c08CorpusSecondTransit(t, tr, rng)
+	c08CorpusPoolDeletion(t, tr, rng)
 	seqs := scale(24, 300)
 	maxOps := scale(90, 160)
 	for s := 0; s < seqs; s++ {
